@@ -588,6 +588,7 @@ func genC03(c *Ctx) {
 	for i := 0; i < 260*c.scale; i++ {
 		list = append(list, randSquareCase(c, r, false, true))
 	}
+	list = append(list, refusedLowNamespaceCases(c, r)...)
 	nModel := len(list)
 	// Go-side only (too large for the model runner): blobs whose share count sits on the constants of the
 	// code - the worst-case share index 128*128 = 16384 - alone, behind ordinary transactions, and next to
@@ -814,6 +815,8 @@ func genC06(c *Ctx) {
 		list = append(list, randSquareCase(c, r, false, true))
 	}
 	list = append(list, fullSquareExactFitCases(c, r)...)
+	list = append(list, sameNsPairCases(c, r)...)
+	list = append(list, refusedLowNamespaceCases(c, r)...)
 	nModel := len(list)
 	// Go side only: units on varint-width boundaries aligned to share boundaries, many-blob PFBs, oversized blobs
 	list = append(list, boundaryUnitCases(c, r)...)
@@ -931,6 +934,9 @@ func genC07(c *Ctx) {
 	list = append(list, boundaryUnitCases(c, r)...)
 	list = append(list, bigSquareCases(c, r, false)...)
 	list = append(list, emptyInnerSweep(c, r)...)
+	list = append(list, hugeMaxCases(c, r)...)
+	list = append(list, refusedLowNamespaceCases(c, r)...)
+	list = append(list, sameNsPairCases(c, r)...)
 	for ci, s := range list {
 		if ci < nModel {
 			c.add("build", argsOf(s)...)
@@ -1379,6 +1385,83 @@ func fullSquareExactFitCases(c *Ctx, r *Rng) []sqCase {
 			out = append(out, sqCase{txs: l, max: max, thr: 64})
 			c.count("full_square_exact_fit")
 		}
+	}
+	return out
+}
+
+// hugeMaxCases: tiny squares built with a HUGE configured maximum (2048, 4096, 2^16, 2^20 - all valid powers
+// of two): one blob transaction whose wrapped PFB, with the specified placeholder index 16384 (3 bytes), fills the
+// first PFB share to the last byte - a placeholder derived from the maximum would be a byte longer.
+func hugeMaxCases(c *Ctx, r *Rng) []sqCase {
+	var out []sqCase
+	nss := blobNamespaces(r, 2)
+	b := randBlob(r, nss, 100)
+	b.data = r.Bytes(1 + r.Intn(300))
+	bl := []genBlob{b}
+	best := -1
+	for L := 300; L <= 470; L++ {
+		raw := blobTxWithInner(make([]byte, L), bl)
+		rt := classify(raw)
+		if len(refDelimited(refIndexWrapper(rt.inner, []uint32{16384}))) == 474 {
+			best = L
+		}
+	}
+	if best < 0 {
+		return nil
+	}
+	for _, max := range []int{512, 1024, 2048, 4096, 1 << 16, 1 << 20} {
+		for _, d := range []int{0, 1} {
+			raw := blobTxWithInner(r.Bytes(best+d), bl)
+			out = append(out, sqCase{txs: []genTx{{raw: raw, blobs: bl}}, max: max, thr: 64})
+			c.count("huge_configured_maximum")
+		}
+	}
+	return out
+}
+
+// sameNsPairCases: one blob transaction with two consecutive blobs of the SAME namespace and every pair of
+// share counts 1..9 (threshold 1: widths 1, 2, 4), behind 0..3 shares of ordinary transactions so that the first
+// blob starts at every alignment: the second blob needs its own worst-case padding whatever precedes it.
+func sameNsPairCases(c *Ctx, r *Rng) []sqCase {
+	var out []sqCase
+	ns := blobNamespaces(r, 1)[0]
+	for a := 1; a <= 9; a++ {
+		for b := 1; b <= 9; b++ {
+			lead := (a + 2*b) % 4
+			var l []genTx
+			if lead > 0 {
+				l = append(l, genTx{raw: r.Bytes(474 + 478*(lead-1) - 5)})
+			}
+			b1 := genBlob{ns: ns, data: r.Bytes(478 + 482*(a-1) - r.Intn(5))}
+			b2 := genBlob{ns: ns, data: r.Bytes(478 + 482*(b-1) - r.Intn(5))}
+			bl := []genBlob{b1, b2}
+			l = append(l, genTx{raw: blobTxWithInner(mockPFB(r.Bytes(mockPFBExtraBytes), []uint32{uint32(len(b1.data)), uint32(len(b2.data))}), bl), blobs: bl})
+			out = append(out, sqCase{txs: l, max: 8, thr: 1})
+		}
+	}
+	c.count("same_namespace_pair_all_share_counts")
+	return out
+}
+
+// refusedLowNamespaceCases: a kept blob in a high namespace, a REFUSED blob transaction in a low namespace,
+// then a kept blob in a namespace in between (and permutations): whatever a refused append looked at must
+// leave no trace in how the kept blobs are ordered.
+func refusedLowNamespaceCases(c *Ctx, r *Rng) []sqCase {
+	var out []sqCase
+	mkNs := func(b byte) []byte {
+		ns := make([]byte, 29)
+		ns[20], ns[28] = b, 7
+		return ns
+	}
+	mk := func(ns []byte, n int) genTx {
+		b := genBlob{ns: ns, data: r.Bytes(n)}
+		bl := []genBlob{b}
+		return genTx{raw: blobTxWithInner(mockPFB(r.Bytes(mockPFBExtraBytes), []uint32{uint32(n)}), bl), blobs: bl}
+	}
+	for _, order := range [][3]byte{{0x50, 0x10, 0x30}, {0x30, 0x10, 0x50}, {0x50, 0x60, 0x30}, {0x30, 0x50, 0x10}} {
+		l := []genTx{mk(mkNs(order[0]), 1+r.Intn(400)), mk(mkNs(order[1]), 16*482+100), mk(mkNs(order[2]), 1+r.Intn(400))}
+		out = append(out, sqCase{txs: l, max: 4, thr: 64})
+		c.count("refused_blob_tx_between_kept_ones_by_namespace")
 	}
 	return out
 }
